@@ -30,7 +30,7 @@ PID = "C02"
 LEVEL = "translation_validation"
 LEAN = ["SaVerif.Props.C02"]
 META = {
-    "text": "Differential validation of cache transparency on the real code: (A) ~60-toggle feature-matrix statements compiled for 5 dialects through _compile_w_cache + construct_params with a shared warm cache, a cold cache and no cache, in sequences that interleave value-only variants (must hit) and one-toggle structural mutants (must not be served a stale compilation); (B) generated Core and ORM statements (loader options, with_loader_criteria) executed on SQLite under three paramstyles with warm / cold / disabled caches, comparing SQL and parameters at the cursor and rows. Lean: the cache contract on an abstract element tree (cachekey_eq_same_sql, extracted_length_eq, rebinding_delivers_own_values for any compile order and shared bind objects, extract_nodup) and a regenerated finite table obligation reads_covered (every attribute a visit_ method reads is in the class's _traverse_internals or in the reviewed baseline), re-decided against the working tree on every run.",
+    "text": "Differential validation of cache transparency on the real code: (A) ~60-toggle feature-matrix statements compiled for 5 dialects through _compile_w_cache + construct_params with a shared warm cache, a cold cache and no cache, in sequences that interleave value-only variants (must hit) and one-toggle structural mutants (must not be served a stale compilation); (B) generated Core and ORM statements (loader options, with_loader_criteria) executed on SQLite under three paramstyles with warm / cold / disabled caches, comparing SQL and parameters at the cursor and rows. (E) for every public constructor argument of the common types, statements differing only in that argument (unset / 0 / False / '' / truthy) through one cache in both orders; (F) statements derived from SHARED text()/select templates, re-executed after siblings were derived, with the expected rows computed from the value each statement was derived with. Lean: the cache contract on an abstract element tree (cachekey_eq_same_sql, extracted_length_eq, rebinding_delivers_own_values for any compile order and shared bind objects, extract_nodup) regenerated finite-table obligations type_keys_separate_variants (the _static_cache_key of type instances that differ in a constructor argument, boundary values included, are pairwise different), traversal_not_shrunk and reads_covered (every attribute a visit_ method reads is in the class's _traverse_internals or in the reviewed baseline), re-decided against the working tree on every run.",
     "note": "Level translation_validation: the Lean theorems state the contract, they do not prove that each real construct obeys it; that is the regenerated table (syntactic: attribute reads of visit_ methods by ast) plus the differential. Not modelled: LRU eviction (C54), ORM compile-state caching internals. Known finding: BindParameter._gen_cache_key omits `expanding` (two statements differing only in bindparam(expanding=…) share a cache key but not their SQL).",
     "technique": "differential testing of the real caching path (warm/cold/disabled) over a feature matrix with single-toggle mutants + regenerated reads⊆traversed table decided in Lean + Lean contract theorems",
     "design_ref": "DESIGN.md §3 C02",
@@ -118,6 +118,18 @@ def all_traversed():
     return res
 
 
+def type_key_rows():
+    import sqlalchemy as sa
+    from harness import lib_feat as lf
+
+    seen = {}
+    for (_c, _p), variants in sorted(lf.type_variant_groups(sa).items()):
+        for _lbl, T in variants:
+            d = repr(lf.type_desc(T))
+            seen.setdefault(d, repr(T._static_cache_key))
+    return sorted(seen.items())
+
+
 def gen(ctx):
     rows = read_tables()
     if os.path.exists(BASELINE):
@@ -141,6 +153,9 @@ def gen(ctx):
     src += "\n  ]\n\n/-- current _traverse_internals of every cacheable class of sqlalchemy.sql -/\ndef traversed : List (String × List String) :=\n  [\n"
     at = all_traversed()
     src += ",\n".join('    ("%s", %s)' % (k, lst(at[k])) for k in sorted(at))
+    src += "\n  ]\n\n/-- (constructor-level description of a type instance, repr of its _static_cache_key) for the boundary variants (unset / 0 / False / '' / truthy) of every public constructor argument of the common types; one row per distinct description -/\ndef typeKeys : List (String × String) :=\n  [\n"
+    tk = type_key_rows()
+    src += ",\n".join('    ("%s", "%s")' % (a.replace("\\", "\\\\").replace('"', "'"), b.replace("\\", "\\\\").replace('"', "'")) for a, b in tk)
     src += "\n  ]\n\nend SaVerif.Gen.CacheKeyTables\n"
     ctx.write_gen("CacheKeyTables", src)
 
@@ -466,6 +481,139 @@ def schema_map_stream(ctx, n, record=True):
     return n_v
 
 
+# --------------------------------------------------------------------------- E: type-argument boundaries
+def type_boundary_stream(ctx, record=True):
+    """for every public constructor argument of the common types: statements that differ
+    ONLY in that argument (unset / 0 / False / '' / truthy) pushed through one shared
+    cache in both orders; warm must equal cold in SQL and in the types of binds/results"""
+    from harness import lib_feat as lf
+
+    sa = lf.Feat().sa
+    t = lf.Feat().tab("t", None)
+    dialects = {n: lf.get_dialect(n) for n in lf.DIALECTS}
+    nviol = 0
+    forms = {
+        "cast": lambda T: sa.select(sa.cast(t.c.x, T)),
+        "type_coerce": lambda T: sa.select(sa.type_coerce(t.c.x, T).label("v")),
+        "bind": lambda T: sa.select(t.c.id).where(t.c.x == sa.bindparam("p", None, type_=T)),
+        "column": lambda T: sa.select(sa.column("q", T)).select_from(t),
+    }
+    for (cname, pname), variants in sorted(lf.type_variant_groups(sa).items()):
+        for fname, form in forms.items():
+            for order in (variants, list(reversed(variants))):
+                for dn, d in dialects.items():
+                    warm = {}
+                    for lbl, T in order:
+                        try:
+                            st = form(T)
+                            w = lf.compile_via(st, d, warm)[:2]
+                            c = lf.compile_via(st, d, {})[:2]
+                        except Exception:
+                            if record:
+                                ctx.count("E:not-compilable")
+                            continue
+                        if record:
+                            ctx.count("E:type-boundary-compiles")
+                        if w != c:
+                            nviol += 1
+                            ctx.violation(
+                                "c02:type-argument-not-in-cache-key",
+                                {"stream": "types", "cls": cname, "arg": pname, "form": fname, "dialect": dn, "order": [x for x, _ in order]},
+                                "%s on %s, order %s: %s served by a compilation cached for another value of `%s`: warm %s | cold %s" % (fname, dn, [x for x, _ in order], lbl, pname, str(w)[:300], str(c)[:300]),
+                            )
+                            return nviol
+        if record:
+            ctx.case("types:%s.%s" % (cname, pname), nontrivial=True)
+    return nviol
+
+
+# --------------------------------------------------------------------------- F: statements derived from SHARED templates
+TEMPLATE_KINDS = ["text", "text_pos", "text_frag", "select_params", "select_where", "text_frag_two"]
+
+
+def shared_templates(env):
+    sa, t = env.sa, env.fx.t
+    return {
+        "text": sa.text("select id, x from t where x > :v order by id").bindparams(v=0),
+        "frag": sa.text("t.x > :v").bindparams(v=0),
+        "frag2": sa.text("t.x > :v and t.y < :w").bindparams(v=0, w=99999),
+        "sel_bind": sa.select(t.c.id).where(t.c.x > sa.bindparam("v", 0)).order_by(t.c.id),
+        "sel": sa.select(t.c.id).order_by(t.c.id),
+    }
+
+
+def derive(env, tpl, kind, val):
+    sa, t = env.sa, env.fx.t
+    if kind == "text":
+        return tpl["text"].bindparams(v=val)
+    if kind == "text_pos":
+        return tpl["text"].bindparams(sa.bindparam("v", val))
+    if kind == "text_frag":
+        return sa.select(t.c.id).where(tpl["frag"].bindparams(v=val)).order_by(t.c.id)
+    if kind == "text_frag_two":
+        return sa.select(t.c.id).where(tpl["frag2"].bindparams(v=val)).order_by(t.c.id)
+    if kind == "select_params":
+        return tpl["sel_bind"].params(v=val)
+    if kind == "select_where":
+        return tpl["sel"].where(t.c.x > val)
+    raise ValueError(kind)
+
+
+def shared_history(ctx, env, actions, record=True):
+    """actions: ["derive", kind, value] appends to the pool; ["exec", i] executes pool[i]
+    on every engine.  Oracle: warm == cold == no-cache AND the ids returned are the ids
+    of rows with x > (the value THAT statement was derived with)."""
+    from harness import lib_binds as lb
+
+    tpl = shared_templates(env)
+    pool = []
+    for pos, act in enumerate(actions):
+        if act[0] == "derive":
+            pool.append((derive(env, tpl, act[1], act[2]), act[2], act[1]))
+            continue
+        if act[1] >= len(pool):
+            continue
+        st, val, kind = pool[act[1]]
+        want = [i + 1 for i, x in enumerate(lb.X_VALUES) if x > val]
+        sp = {"kind": "select"}
+        for style in env.STYLES:
+            res = {m: exec_one(env, (style, m), st, None, sp) for m in ("warm", "cold", "none")}
+            cmpk = lambda r: (r["status"], r.get("rows"), r["sql"])  # noqa
+            got = {m: ([r_[0] for r_ in res[m]["rows"]] if res[m].get("rows") is not None else res[m]["status"]) for m in res}
+            bad = None
+            if cmpk(res["warm"]) != cmpk(res["cold"]) or cmpk(res["cold"]) != cmpk(res["none"]):
+                bad = "cache modes disagree"
+            elif got["warm"] != want:
+                bad = "statement derived with v=%s returns ids %s, expected %s" % (val, got["warm"], want)
+            if bad:
+                ctx.violation(
+                    "c02:shared-template",
+                    {"stream": "shared", "actions": actions[: pos + 1]},
+                    "step %d (%s derived with v=%s, style %s): %s ; warm %s | cold %s | none %s" % (pos, kind, val, style, bad, str(cmpk(res["warm"]))[:250], str(cmpk(res["cold"]))[:250], str(cmpk(res["none"]))[:250]),
+                )
+                return 1
+    if record:
+        ctx.case(json.dumps(actions), nontrivial=True)
+        ctx.count("F:shared-template-history")
+    return 0
+
+
+def gen_shared_actions(rng):
+    from harness import lib_binds as lb
+
+    acts = []
+    n_pool = 0
+    for _ in range(rng.randint(4, 10)):
+        if n_pool == 0 or rng.random() < 0.45:
+            kind = rng.choice(TEMPLATE_KINDS)
+            acts.append(["derive", kind, rng.choice(lb.X_VALUES) + rng.choice([0, 1, -1])])
+            n_pool += 1
+        else:
+            acts.append(["exec", rng.randrange(n_pool)])
+    acts += [["exec", i] for i in range(n_pool)]
+    return acts
+
+
 # --------------------------------------------------------------------------- entry points
 def feat_state():
     from harness import lib_feat as lf
@@ -546,6 +694,9 @@ def run(ctx, deep=False):
         exec_sequence(ctx, env, seq)
         ctx.case(json.dumps(seq, sort_keys=True), nontrivial=True)
     schema_map_stream(ctx, 200 if thorough else 15)
+    type_boundary_stream(ctx)
+    for _ in range(400 if thorough else 40):
+        shared_history(ctx, env, gen_shared_actions(ctx.rng))
     rebind_cases(ctx, env, 400 if thorough else 80)
     ctx.exhaustive = False
 
@@ -583,7 +734,11 @@ def replay(ctx, obj):
 
     warnings.simplefilter("ignore")
     c = obj["case"]
-    if c.get("stream") == "schema":
+    if c.get("stream") == "types":
+        bad = type_boundary_stream(ctx, record=False) > 0
+    elif c.get("stream") == "shared":
+        bad = shared_history(ctx, ExecEnv(), c["actions"], record=False) > 0
+    elif c.get("stream") == "schema":
         from harness.props import c16
 
         hist = [(i, None if m is None else {k: v for k, v in m}) for i, m in c["history"]]
